@@ -43,7 +43,11 @@ def mk_transition(origin=None, equation=None, transition_type="ODE", destination
     """summary of Transition(...) as verified by R-BIRTH on Transition.__init__"""
     tt = transition_type
     if isinstance(tt, str):
-        tt = {"t": TT.attrs["T"], "b": TT.attrs["B"], "d": TT.attrs["D"], "ode": TT.attrs["ODE"]}[tt.lower()]
+        table = {"t": "T", "between states": "T", "ode": "ODE", "ode equation": "ODE", "b": "B", "birth process": "B", "d": "D", "death process": "D"}
+        if tt.lower() not in table:
+            from ..core.absint import Raised
+            raise Raised("TransitionTypeError(Unknown input string)")
+        tt = TT.attrs[table[tt.lower()]]
     o, d = origin, destination
     if tt == TT.attrs["B"]:
         d = origin if origin is not None else destination
